@@ -820,14 +820,63 @@ def m_minmax(ctx):
     a, b = eng.as_lin(st, ctx.args[0]), eng.as_lin(st, ctx.args[1])
     if a is None or b is None or ctx.dty.get("k") != "int":
         return None
+    is_min = ctx.path.endswith("::min")
+    # exact when one side is known to be the smaller
+    if eng.holds(st, ("le", a - b), True):
+        return [ctx.ret(V_int(a if is_min else b))]
+    if eng.holds(st, ("le", b - a), True):
+        return [ctx.ret(V_int(b if is_min else a))]
     f = eng.fresh_int(ctx.dty, "mm")
-    if ctx.path.endswith("::min"):
+    if is_min:
         st.add(f - a)
         st.add(f - b)
+        la_, lb_ = st.lower(a), st.lower(b)
+        if la_ is not None and lb_ is not None and -INF not in (la_, lb_):
+            st.add(Lin.const(min(la_, lb_)) - f)      # the result is one of the two: not below the smaller lower bound
     else:
         st.add(a - f)
         st.add(b - f)
+        ua_, ub_ = st.upper(a), st.upper(b)
+        if ua_ is not None and ub_ is not None and INF not in (ua_, ub_):
+            st.add(f - max(ua_, ub_))                 # ... nor above the larger upper bound
     return [ctx.ret(V_int(f))]
+
+
+def m_euclid(ctx):
+    """x.rem_euclid(k) / x.div_euclid(k) for a positive constant k: x = k*q + r with 0 <= r < k (no panic for k > 0)."""
+    eng, st = ctx.eng, ctx.st
+    a, b = eng.as_lin(st, ctx.args[0]), eng.as_lin(st, ctx.args[1])
+    if a is None or b is None or b.t or b.c <= 0:
+        return None
+    k = b.c
+    q = Lin.sym(eng.new_sym("eq"))
+    r = Lin.sym(eng.new_sym("er", 0, k - 1))
+    st.add(q.scale(k) + r - a)
+    st.add(a - q.scale(k) - r)
+    return [ctx.ret(V_int(r if ctx.path.endswith("rem_euclid") else q))]
+
+
+def m_leading_zeros(ctx):
+    f = ctx.eng.fresh_int(ctx.dty, "lz")
+    t = ctx.argtys[0] if ctx.argtys else {}
+    bits = t.get("bits") if t.get("k") == "int" else None
+    ctx.st.add(-f)
+    if bits:
+        ctx.st.add(f - bits)
+    return [ctx.ret(V_int(f))]
+
+
+def m_div_ceil(ctx):
+    """x.div_ceil(k) for unsigned x and a positive constant k: k*(r - 1) < x <= k*r."""
+    eng, st = ctx.eng, ctx.st
+    a, b = eng.as_lin(st, ctx.args[0]), eng.as_lin(st, ctx.args[1])
+    if a is None or b is None or b.t or b.c <= 0 or not eng.holds(st, ("le", -a), True):
+        return None
+    k = b.c
+    r = Lin.sym(eng.new_sym("dc", 0, ISIZE_MAX))
+    st.add(a - r.scale(k))
+    st.add(r.scale(k) - a - (k - 1))
+    return [ctx.ret(V_int(r))]
 
 
 def m_to_bytes(ctx):
@@ -1075,6 +1124,12 @@ def lookup(path, c):
     if last == "into_iter" and path.startswith("core::slice::iter::<impl std::iter::IntoIterator for &"):
         return m_into_iter
     if path.startswith("core::num::<impl ") or path.startswith("std::num::<impl ") or path.startswith("core::num::"):
+        if last in ("rem_euclid", "div_euclid"):
+            return m_euclid
+        if last in ("leading_zeros", "trailing_zeros", "count_ones"):
+            return m_leading_zeros
+        if last == "div_ceil":
+            return m_div_ceil
         if last.startswith("wrapping_") or last.startswith("overflowing_") or last in ("swap_bytes", "rotate_left", "rotate_right", "count_ones", "leading_zeros", "trailing_zeros", "reverse_bits"):
             return m_wrapping
         if last == "saturating_sub":
